@@ -239,7 +239,8 @@ NEEDS = {
              'multi-species crystal in which the interstitial species is not the last chemistry index'),
     'C36d': ('GroupOp.__eq__ compares index maps with zip (prefix equality) while __hash__ uses the full map',
              'operations of two crystals on one lattice with a different number of species (fcc vs rock salt): equal but different hashes'),
-    'C22d': ('KPTmesh / fullkptmesh change by the seeding agent (see notes in meta)', 'see patch'),
+    'C22d': ('fullkptmesh: the "already inside the zone" pre-filter bound taken from the reciprocal basis vectors instead of the zone-face vectors',
+             'low-symmetry lattice whose shortest reciprocal vector is a combination of the basis vectors, and a mesh with a point in the thin shell between the two bounds'),
 }
 
 
